@@ -36,7 +36,7 @@ INT_W = lambda n: [[i, 1] for i in range(1, n + 1)]  # noqa
 HALF_W = [[1, 2], [3, 2]]
 
 
-def stv_configs(nc, quotas=("droop", "hare"), tbs=("none", "random", "borda", "first_place"), xfers=("fractional", "random"),
+def stv_configs(nc, quotas=("droop", "hare"), tbs=("none", "random", "borda", "first_place"), xfers=("fractional", "random", "full"),
                 rules=("STV", "SequentialRCV", "IRV")):
     from .elections import base_cfg
     out = []
